@@ -8,6 +8,7 @@ package pure
 
 import (
 	"bytes"
+	"database/sql/driver"
 	"encoding/json"
 	"encoding/xml"
 	"fmt"
@@ -64,7 +65,27 @@ type Input struct {
 	Coords [][]float64 // low-level coordinate arguments (each with spare capacity)
 	Flat   []float64   // flat coordinate argument for *Flat functions
 	Layout geom.Layout
+
+	// kept holds the live results of the calls made on this input (the very values the library
+	// returned, not renderings), so that they can be rendered again after LATER calls: a result
+	// that aliases a pooled or cached buffer changes under a later call.
+	kept []any
 }
+
+// fp renders results like the package-level fp and retains the live values.
+func (in *Input) fp(v ...any) string {
+	in.kept = append(in.kept, v...)
+	return fp(v...)
+}
+
+// keep retains live result values without rendering them.
+func (in *Input) keep(v ...any) { in.kept = append(in.kept, v...) }
+
+// ResetKept forgets the retained results.
+func (in *Input) ResetKept() { in.kept = nil }
+
+// Rerender renders every retained live result again.
+func (in *Input) Rerender() string { return fp(in.kept...) }
 
 func bitsStr(fs []float64) string {
 	var sb strings.Builder
@@ -336,6 +357,8 @@ func fp(v ...any) string {
 			sb.WriteString("[" + bitsStr(t) + "] ")
 		case geom.Coord:
 			sb.WriteString("[" + bitsStr(t) + "] ")
+		case []byte:
+			fmt.Fprintf(&sb, "b%x ", t)
 		case geom.T:
 			if t == nil || isNil(t) {
 				sb.WriteString("<nil geom> ")
@@ -401,26 +424,26 @@ type measured interface {
 func Registry() []Fn {
 	nanOpt := wkbcommon.WKBOptionEmptyPointHandling(wkbcommon.EmptyPointHandlingNaN)
 	r := []Fn{
-		{"T.Area+Length", flatGeom, func(in *Input) string { m := in.T.(measured); return fp(m.Area(), m.Length()) }},
-		{"T.Bounds", hasGeom, func(in *Input) string { return fp(in.T.Bounds()) }},
+		{"T.Area+Length", flatGeom, func(in *Input) string { m := in.T.(measured); return in.fp(m.Area(), m.Length()) }},
+		{"T.Bounds", hasGeom, func(in *Input) string { return in.fp(in.T.Bounds()) }},
 		{"T.Coords+accessors", flatGeom, func(in *Input) string {
-			out := fp(in.T, in.T.Layout(), in.T.Stride(), in.T.SRID(), in.T.Empty())
+			out := in.fp(in.T, in.T.Layout(), in.T.Stride(), in.T.SRID(), in.T.Empty())
 			switch t := in.T.(type) {
 			case *geom.Polygon:
 				for i := 0; i < t.NumLinearRings(); i++ {
-					out += fp(t.LinearRing(i))
+					out += in.fp(t.LinearRing(i))
 				}
 			case *geom.MultiPoint:
 				for i := 0; i < t.NumPoints(); i++ {
-					out += fp(t.Point(i))
+					out += in.fp(t.Point(i))
 				}
 			case *geom.MultiLineString:
 				for i := 0; i < t.NumLineStrings(); i++ {
-					out += fp(t.LineString(i))
+					out += in.fp(t.LineString(i))
 				}
 			case *geom.MultiPolygon:
 				for i := 0; i < t.NumPolygons(); i++ {
-					out += fp(t.Polygon(i))
+					out += in.fp(t.Polygon(i))
 				}
 			}
 			return out
@@ -428,17 +451,17 @@ func Registry() []Fn {
 		{"T.Clone", flatGeom, func(in *Input) string {
 			switch t := in.T.(type) {
 			case *geom.Point:
-				return fp(t.Clone())
+				return in.fp(t.Clone())
 			case *geom.LineString:
-				return fp(t.Clone())
+				return in.fp(t.Clone())
 			case *geom.Polygon:
-				return fp(t.Clone())
+				return in.fp(t.Clone())
 			case *geom.MultiPoint:
-				return fp(t.Clone())
+				return in.fp(t.Clone())
 			case *geom.MultiLineString:
-				return fp(t.Clone())
+				return in.fp(t.Clone())
 			case *geom.MultiPolygon:
-				return fp(t.Clone())
+				return in.fp(t.Clone())
 			}
 			return ""
 		}},
@@ -448,83 +471,85 @@ func Registry() []Fn {
 				return "nolayout"
 			}
 			b2 := geom.NewBounds(b.Layout()).Extend(geom.NewPointFlat(geom.XY, []float64{1, 1}))
-			return fp(b.Overlaps(geom.XY, b2), b.OverlapsPoint(geom.XY, geom.Coord{1, 1}), b.Polygon(), b.Clone(), b.IsEmpty())
+			return in.fp(b.Overlaps(geom.XY, b2), b.OverlapsPoint(geom.XY, geom.Coord{1, 1}), b.Polygon(), b.Clone(), b.IsEmpty())
 		}},
-		{"xy.ConvexHull", nonEmpty, func(in *Input) string { return fp(xy.ConvexHull(in.T)) }},
+		{"xy.ConvexHull", nonEmpty, func(in *Input) string { return in.fp(xy.ConvexHull(in.T)) }},
 		{"xy.ConvexHullFlat", func(in *Input) bool { return len(in.Flat) > 0 && in.Layout >= geom.XY && in.Layout <= geom.XYZM && len(in.Flat)%in.Layout.Stride() == 0 }, func(in *Input) string {
-			return fp(xy.ConvexHullFlat(in.Layout, in.Flat))
+			return in.fp(xy.ConvexHullFlat(in.Layout, in.Flat))
 		}},
 		{"xy.Centroid", func(in *Input) bool { return nonEmpty(in) && centroidOK(in) }, func(in *Input) string {
 			c, err := xy.Centroid(in.T)
-			return fp(c, err)
+			return in.fp(c, err)
 		}},
-		{"xy.PointsCentroidFlat", nonEmpty, func(in *Input) string { return fp(xy.PointsCentroidFlat(in.Layout, in.T.FlatCoords())) }},
+		{"xy.PointsCentroidFlat", nonEmpty, func(in *Input) string { return in.fp(xy.PointsCentroidFlat(in.Layout, in.T.FlatCoords())) }},
 		{"xy.IsRingCounterClockwise+SignedArea", func(in *Input) bool { return ringInput(in) != nil }, func(in *Input) string {
 			r := ringInput(in)
-			return fp(xy.IsRingCounterClockwise(in.Layout, r), xy.SignedArea(in.Layout, r))
+			return in.fp(xy.IsRingCounterClockwise(in.Layout, r), xy.SignedArea(in.Layout, r))
 		}},
 		{"xy.LocatePointInRing+IsPointInRing", func(in *Input) bool { return ringInput(in) != nil }, func(in *Input) string {
 			r := ringInput(in)
 			p := make(geom.Coord, in.Layout.Stride())
 			p[0], p[1] = 2.5, 2.6
-			return fp(xy.LocatePointInRing(in.Layout, p, r), xy.IsPointInRing(in.Layout, p, r))
+			return in.fp(xy.LocatePointInRing(in.Layout, p, r), xy.IsPointInRing(in.Layout, p, r))
 		}},
 		{"xy.IsOnLine+DistanceFromPointToLineString", func(in *Input) bool { return nonEmpty(in) && len(in.T.FlatCoords()) >= 2*in.Layout.Stride() && in.Layout <= geom.XYZM }, func(in *Input) string {
 			p := make(geom.Coord, in.Layout.Stride())
 			p[0], p[1] = 12, 12
-			return fp(xy.IsOnLine(in.Layout, p, in.T.FlatCoords()), xy.DistanceFromPointToLineString(in.Layout, p, in.T.FlatCoords()))
+			return in.fp(xy.IsOnLine(in.Layout, p, in.T.FlatCoords()), xy.DistanceFromPointToLineString(in.Layout, p, in.T.FlatCoords()))
 		}},
 		{"xy.SimplifyFlatCoords", func(in *Input) bool { return nonEmpty(in) && in.Layout <= geom.XYZM }, func(in *Input) string {
-			return fp(xy.SimplifyFlatCoords(in.T.FlatCoords(), 0.5, in.Layout.Stride()))
+			return in.fp(xy.SimplifyFlatCoords(in.T.FlatCoords(), 0.5, in.Layout.Stride()))
 		}},
 		{"transform.UniqueCoords", func(in *Input) bool { return nonEmpty(in) && in.Layout <= geom.XYZM }, func(in *Input) string {
-			return fp(transform.UniqueCoords(in.Layout, cmp2D{}, in.T.FlatCoords()))
+			return in.fp(transform.UniqueCoords(in.Layout, cmp2D{}, in.T.FlatCoords()))
 		}},
 		{"OrientationIndex(bigxy+xy)", hasCoords, func(in *Input) string {
 			c := in.Coords
-			return fp(bigxy.OrientationIndex(c[0], c[1], c[2]), xy.OrientationIndex(c[1], c[2], c[0]), xy.OrientationIndex(c[0], c[1], c[3]))
+			return in.fp(bigxy.OrientationIndex(c[0], c[1], c[2]), xy.OrientationIndex(c[1], c[2], c[0]), xy.OrientationIndex(c[0], c[1], c[3]))
 		}},
 		{"lineintersector.LineIntersectsLine(robust)", hasCoords, func(in *Input) string {
 			c := in.Coords
 			r := lineintersector.LineIntersectsLine(lineintersector.RobustLineIntersector{}, c[0], c[1], c[2], c[3])
-			out := fp(r.Type(), r.HasIntersection())
+			out := in.fp(r.Type(), r.HasIntersection())
 			for _, p := range r.Intersection() {
-				out += fp(p)
+				out += in.fp(p)
 			}
-			return out + fp(lineintersector.PointIntersectsLine(lineintersector.RobustLineIntersector{}, c[2], c[0], c[1]))
+			return out + in.fp(lineintersector.PointIntersectsLine(lineintersector.RobustLineIntersector{}, c[2], c[0], c[1]))
 		}},
 		{"lineintersector.LineIntersectsLine(nonrobust)", hasCoords, func(in *Input) string {
 			c := in.Coords
 			r := lineintersector.LineIntersectsLine(lineintersector.NonRobustLineIntersector{}, c[0], c[1], c[2], c[3])
-			out := fp(r.Type())
+			out := in.fp(r.Type())
 			for _, p := range r.Intersection() {
-				out += fp(p)
+				out += in.fp(p)
 			}
 			return out
 		}},
 		{"xy.Distance*", hasCoords, func(in *Input) string {
 			c := in.Coords
-			return fp(xy.DistanceFromPointToLine(c[2], c[0], c[1]), xy.PerpendicularDistanceFromPointToLine(c[3], c[0], c[1]), xy.DistanceFromLineToLine(c[0], c[1], c[2], c[3]), xy.Distance(c[0], c[3]))
+			return in.fp(xy.DistanceFromPointToLine(c[2], c[0], c[1]), xy.PerpendicularDistanceFromPointToLine(c[3], c[0], c[1]), xy.DistanceFromLineToLine(c[0], c[1], c[2], c[3]), xy.Distance(c[0], c[3]))
 		}},
 		{"xy.Angle*", hasCoords, func(in *Input) string {
 			c := in.Coords
-			return fp(xy.Angle(c[0], c[1]), xy.AngleBetween(c[0], c[1], c[2]), xy.InteriorAngle(c[0], c[1], c[3]), xy.IsAcute(c[0], c[1], c[2]))
+			return in.fp(xy.Angle(c[0], c[1]), xy.AngleBetween(c[0], c[1], c[2]), xy.InteriorAngle(c[0], c[1], c[3]), xy.IsAcute(c[0], c[1], c[2]))
 		}},
 		{"xyz.Distance*", func(in *Input) bool { return hasCoords(in) && len(in.Coords[0]) >= 3 }, func(in *Input) string {
 			c := in.Coords
-			return fp(xyz.Distance(c[0], c[3]), xyz.DistancePointToLine(c[2], c[0], c[1]), xyz.DistanceLineToLine(c[0], c[1], c[1], c[2]))
+			return in.fp(xyz.Distance(c[0], c[3]), xyz.DistancePointToLine(c[2], c[0], c[1]), xyz.DistanceLineToLine(c[0], c[1], c[1], c[2]))
 		}},
-		{"bigxy.Intersection", func(in *Input) bool { return hasCoords(in) && in.Name != "coords4" }, func(in *Input) string { c := in.Coords; return fp(bigxy.Intersection(c[0], c[1], c[2], c[3])) }},
+		{"bigxy.Intersection", func(in *Input) bool { return hasCoords(in) && in.Name != "coords4" }, func(in *Input) string { c := in.Coords; return in.fp(bigxy.Intersection(c[0], c[1], c[2], c[3])) }},
 		// encoders
 		{"wkb.Marshal", func(in *Input) bool { return hasGeom(in) && in.WKB != nil }, func(in *Input) string {
 			b, err := wkb.Marshal(in.T, wkb.NDR, nanOpt)
 			b2, err2 := wkb.Marshal(in.T, wkb.XDR)
+			in.keep(b, b2)
 			return fmt.Sprintf("%x %v %x %v", b, err, b2, err2)
 		}},
 		{"ewkb.Marshal+hex", func(in *Input) bool { return hasGeom(in) && in.EWKB != nil }, func(in *Input) string {
 			b, err := ewkb.Marshal(in.T, ewkb.XDR)
 			s, err2 := ewkbhex.Encode(in.T, ewkbhex.NDR)
 			s2, err3 := wkbhex.Encode(in.T, wkbhex.NDR, nanOpt)
+			in.keep(b, s, s2)
 			return fmt.Sprintf("%x %v %s %v %s %v", b, err, s, err2, s2, err3)
 		}},
 		{"wkt.Marshal", hasGeom, func(in *Input) string {
@@ -537,6 +562,7 @@ func Registry() []Fn {
 			b2, err2 := geojson.Marshal(in.T, geojson.EncodeGeometryWithMaxDecimalDigits(3), geojson.EncodeGeometryWithBBox())
 			f := &geojson.Feature{ID: "x", Geometry: in.T, Properties: map[string]interface{}{"k": 1.0}}
 			b3, err3 := json.Marshal(f)
+			in.keep(b, b2, b3)
 			return fmt.Sprintf("%s %v %s %v %s %v", b, err, b2, err2, b3, err3)
 		}},
 		{"kml.Encode", func(in *Input) bool { return hasGeom(in) && in.Layout >= geom.XY && in.Layout <= geom.XYZM && nonEmptyDeep(in) }, func(in *Input) string {
@@ -555,17 +581,105 @@ func Registry() []Fn {
 			err := igc.NewEncoder(&buf, igc.A("XXX")).Encode(in.T.(*geom.LineString))
 			return fmt.Sprintf("%s %v", buf.String(), err)
 		}},
+		{"sql.Value(wkb+ewkb wrappers)", func(in *Input) bool { return hasGeom(in) && in.WKB != nil && in.Layout >= geom.XY }, func(in *Input) string {
+			var v1, v2, v3 driver.Value
+			var e1, e2, e3 error
+			switch t := in.T.(type) {
+			case *geom.Point:
+				v1, e1 = (&wkb.Point{Point: t}).Value()
+				v2, e2 = (&ewkb.Point{Point: t}).Value()
+			case *geom.LineString:
+				v1, e1 = (&wkb.LineString{LineString: t}).Value()
+				v2, e2 = (&ewkb.LineString{LineString: t}).Value()
+			case *geom.Polygon:
+				v1, e1 = (&wkb.Polygon{Polygon: t}).Value()
+				v2, e2 = (&ewkb.Polygon{Polygon: t}).Value()
+			case *geom.MultiPoint:
+				v1, e1 = (&wkb.MultiPoint{MultiPoint: t}).Value()
+				v2, e2 = (&ewkb.MultiPoint{MultiPoint: t}).Value()
+			case *geom.MultiLineString:
+				v1, e1 = (&wkb.MultiLineString{MultiLineString: t}).Value()
+				v2, e2 = (&ewkb.MultiLineString{MultiLineString: t}).Value()
+			case *geom.MultiPolygon:
+				v1, e1 = (&wkb.MultiPolygon{MultiPolygon: t}).Value()
+				v2, e2 = (&ewkb.MultiPolygon{MultiPolygon: t}).Value()
+			case *geom.GeometryCollection:
+				v1, e1 = (&wkb.GeometryCollection{GeometryCollection: t}).Value()
+				v2, e2 = (&ewkb.GeometryCollection{GeometryCollection: t}).Value()
+			}
+			v3, e3 = (&wkb.Geom{T: in.T}).Value()
+			return in.fp(v1, e1, v2, e2, v3, e3)
+		}},
+		{"sql.Scan(ewkb wrappers)", func(in *Input) bool { return hasGeom(in) && in.EWKB != nil }, func(in *Input) string {
+			var g ewkb.GeometryCollection
+			err := g.Scan(in.EWKB)
+			var p ewkb.Point
+			var ls ewkb.LineString
+			var mp ewkb.MultiPolygon
+			e1, e2, e3 := p.Scan(in.EWKB), ls.Scan(in.EWKB), mp.Scan(in.EWKB)
+			var t1, t2, t3 geom.T
+			if e1 == nil && p.Point != nil {
+				t1 = p.Point
+			}
+			if e2 == nil && ls.LineString != nil {
+				t2 = ls.LineString
+			}
+			if e3 == nil && mp.MultiPolygon != nil {
+				t3 = mp.MultiPolygon
+			}
+			var t0 geom.T
+			if err == nil && g.GeometryCollection != nil {
+				t0 = g.GeometryCollection
+			}
+			return in.fp(t0, err != nil, t1, e1 != nil, t2, e2 != nil, t3, e3 != nil)
+		}},
+		{"geojson.Feature+FeatureCollection.MarshalJSON", func(in *Input) bool { return hasGeom(in) && in.JSON != nil }, func(in *Input) string {
+			f := &geojson.Feature{ID: "id-" + in.Name, Geometry: in.T, Properties: map[string]interface{}{"name": in.Name, "k": 1.5}}
+			b1, err1 := f.MarshalJSON()
+			fc := &geojson.FeatureCollection{Features: []*geojson.Feature{f, {ID: "second", Geometry: in.T}}}
+			b2, err2 := fc.MarshalJSON()
+			return in.fp(b1, err1, b2, err2)
+		}},
+		{"geojson.Feature+FeatureCollection.UnmarshalJSON", func(in *Input) bool { return hasGeom(in) && in.JSON != nil }, func(in *Input) string {
+			doc := append(append([]byte(`{"type":"Feature","id":"a1","properties":{"p":[1,"x",null]},"geometry":`), in.JSON...), '}')
+			var f geojson.Feature
+			err1 := f.UnmarshalJSON(doc)
+			cdoc := append(append([]byte(`{"type":"FeatureCollection","features":[`), doc...), []byte(`]}`)...)
+			var fc geojson.FeatureCollection
+			err2 := fc.UnmarshalJSON(cdoc)
+			out := in.fp(f.ID, f.Geometry, fmt.Sprint(f.Properties), err1, len(fc.Features), err2)
+			for _, x := range fc.Features {
+				out += in.fp(x.ID, x.Geometry)
+			}
+			return out
+		}},
+		{"geojson.Encode+Decode", func(in *Input) bool { return hasGeom(in) && in.JSON != nil }, func(in *Input) string {
+			g, err := geojson.Encode(in.T, geojson.EncodeGeometryWithBBox())
+			if err != nil {
+				return in.fp(err)
+			}
+			t, err2 := g.Decode()
+			var raw []byte
+			if g.Coordinates != nil {
+				raw = []byte(*g.Coordinates)
+			}
+			return in.fp(g.Type, raw, t, err2)
+		}},
+		{"wkt.Encoder.Encode", hasGeom, func(in *Input) string {
+			s, err := wkt.NewEncoder(wkt.EncodeOptionWithMaxDecimalDigits(4)).Encode(in.T)
+			return in.fp(s, err)
+		}},
 		// decoders
 		{"wkb.Unmarshal+Scan", func(in *Input) bool { return in.WKB != nil }, func(in *Input) string {
 			g, err := wkb.Unmarshal(in.WKB, nanOpt)
 			var s wkb.Geom
 			err2 := s.Scan(in.WKB)
-			return fp(g, err, err2)
+			return in.fp(g, err, err2)
 		}},
 		{"ewkb.Unmarshal+hex.Decode", func(in *Input) bool { return in.EWKB != nil }, func(in *Input) string {
 			g, err := ewkb.Unmarshal(in.EWKB)
 			g2, err2 := ewkbhex.Decode(in.Hex)
-			return fp(g, err, g2, err2)
+			return in.fp(g, err, g2, err2)
 		}},
 		{"wkt.Unmarshal", func(in *Input) bool { return in.WKT != "" }, func(in *Input) string {
 			g, err := wkt.Unmarshal(in.WKT)
@@ -574,16 +688,16 @@ func Registry() []Fn {
 			if err2 != nil {
 				e2 = err2.Error()
 			}
-			return fp(g, err) + e2
+			return in.fp(g, err) + e2
 		}},
 		{"geojson.Unmarshal", func(in *Input) bool { return in.JSON != nil }, func(in *Input) string {
 			var g geom.T
 			err := geojson.Unmarshal(in.JSON, &g)
-			return fp(g, err)
+			return in.fp(g, err)
 		}},
 		{"igc.Read", func(in *Input) bool { return in.IGC != nil }, func(in *Input) string {
 			t, err := igc.Read(bytes.NewReader(in.IGC))
-			return fp(t.LineString, err) + fmt.Sprint(t.Headers)
+			return in.fp(t.LineString, err) + fmt.Sprint(t.Headers)
 		}},
 	}
 	return r
